@@ -2,7 +2,8 @@
 (***************************************************************************)
 (* Layer B for C17 (ConfigMachine pattern): a ufunc call configuration     *)
 (*                                                                         *)
-(*   [kind, method, ucls, shapes, axis, keepdims, outkind, order, dtkw, idx]*)
+(*   [kind, method, ucls, shapes, axis, keepdims, outkind, outdt, order,   *)
+(*    dtkw, idx]                                                           *)
 (*                                                                         *)
 (* is chosen from the complete cross product of                            *)
 (*   element kind  x  method  x  nin/nout class  x  shape  x  axis subset  *)
@@ -25,7 +26,15 @@ Kinds == {"tensor", "discr", "power"}
 UClasses == {"u1", "u2", "b1", "b2"}
 NIn(u)  == IF u \in {"u1", "u2"} THEN 1 ELSE 2
 NOut(u) == IF u \in {"u1", "b1"} THEN 1 ELSE 2
-OutKinds(kind) == IF kind = "discr" THEN {"none", "element", "tensor", "ndarray"} ELSE {"none", "element", "ndarray"}
+\* out kinds: "element" of the operands' own kind; an element of the OTHER array-backed kind ("tensor" for
+\* discretised operands, "discr" for tensor operands); a plain ndarray
+OutKinds(kind) == CASE kind = "discr" -> {"none", "element", "tensor", "ndarray"}
+                    [] kind = "tensor" -> {"none", "element", "discr", "ndarray"}
+                    [] OTHER -> {"none", "element", "ndarray"}
+\* dtype keyword: absent / the operand dtype / a narrower / a wider one; dtype of the out object relative to the
+\* dtype the call would produce without out
+DtKws == {"none", "same", "narrower", "wider"}
+OutDts == {"same", "wider", "narrower"}
 Orders(u) == IF NIn(u) = 1 THEN {"e"} ELSE {"ee", "ea", "ae"}
 
 \* all axis arguments for a reduction over an nd-dimensional operand: keyword absent, None, every
@@ -43,35 +52,54 @@ SingleAxes(nd) == {AxisDefault} \cup { <<k>> : k \in 0..(nd - 1) } \cup { <<-1>>
 C0(kind, method, ucls, shapes) ==
   [kind |-> kind, method |-> method, ucls |-> ucls, shapes |-> shapes, axis |-> AxisDefault,
    keepdims |-> FALSE, outkind |-> "none", order |-> IF NIn(ucls) = 1 \/ method \notin {"call", "outer"} THEN "e" ELSE "ee",
-   dtkw |-> "none", idx |-> <<>>]
+   dtkw |-> "none", idx |-> <<>>, outdt |-> "same"]
 
 Configs ==
   \* __call__
   { [C0(k, "call", u, IF NIn(u) = 1 THEN <<s>> ELSE <<s, s>>) EXCEPT !.outkind = o, !.order = r, !.dtkw = d] :
-       k \in Kinds, u \in UClasses, s \in Shapes, o \in {"none", "element", "tensor", "ndarray"},
-       r \in {"e", "ee", "ea", "ae"}, d \in {"none", "given"} }
+       k \in Kinds, u \in UClasses, s \in Shapes, o \in {"none", "element", "tensor", "discr", "ndarray"},
+       r \in {"e", "ee", "ea", "ae"}, d \in {"none", "wider"} }
   \cup
   { [C0(k, "reduce", "b1", <<s>>) EXCEPT !.axis = a, !.keepdims = kd, !.outkind = o, !.dtkw = d] :
        k \in Kinds, s \in Shapes, a \in UNION { ReduceAxes(n) : n \in 1..3 }, kd \in BOOLEAN,
-       o \in {"none", "element", "tensor", "ndarray"}, d \in {"none", "given"} }
+       o \in {"none", "element", "tensor", "discr", "ndarray"}, d \in {"none", "wider"} }
   \cup
   { [C0(k, "accumulate", "b1", <<s>>) EXCEPT !.axis = a, !.outkind = o, !.dtkw = d] :
        k \in Kinds, s \in Shapes, a \in UNION { SingleAxes(n) : n \in 1..3 },
-       o \in {"none", "element", "tensor", "ndarray"}, d \in {"none", "given"} }
+       o \in {"none", "element", "tensor", "discr", "ndarray"}, d \in {"none", "wider"} }
   \cup
   { [C0(k, "outer", "b1", p) EXCEPT !.outkind = o, !.order = r] :
-       k \in Kinds, p \in OuterPairs, o \in {"none", "element", "tensor", "ndarray"}, r \in {"ee", "ea", "ae"} }
+       k \in Kinds, p \in OuterPairs, o \in {"none", "element", "tensor", "discr", "ndarray"}, r \in {"ee", "ea", "ae"} }
+  \cup
+  \* the keyword options crossed with the out kinds and out dtypes (array-backed kinds, shape (2, 3))
+  { [C0(k, "call", u, IF NIn(u) = 1 THEN <<<<2, 3>>>> ELSE <<<<2, 3>>, <<2, 3>>>>)
+        EXCEPT !.outkind = o, !.outdt = od, !.order = r, !.dtkw = d] :
+       k \in {"tensor", "discr"}, u \in UClasses, o \in {"none", "element", "tensor", "discr", "ndarray"},
+       od \in OutDts, r \in {"e", "ee", "ea", "ae"}, d \in DtKws }
+  \cup
+  { [C0(k, "reduce", "b1", <<<<2, 3>>>>) EXCEPT !.axis = a, !.keepdims = kd, !.outkind = o, !.outdt = od, !.dtkw = d] :
+       k \in {"tensor", "discr"}, a \in {AxisDefault, <<-1>>, AxisNone}, kd \in BOOLEAN,
+       o \in {"none", "element", "tensor", "discr", "ndarray"}, od \in OutDts, d \in DtKws }
+  \cup
+  { [C0(k, "accumulate", "b1", <<<<2, 3>>>>) EXCEPT !.axis = a, !.outkind = o, !.outdt = od, !.dtkw = d] :
+       k \in {"tensor", "discr"}, a \in {AxisDefault, <<1>>},
+       o \in {"none", "element", "tensor", "discr", "ndarray"}, od \in OutDts, d \in DtKws }
+  \cup
+  { [C0(k, "outer", "b1", <<<<2, 3>>, <<2>>>>) EXCEPT !.outkind = o, !.outdt = od, !.order = r, !.dtkw = d] :
+       k \in {"tensor", "discr"}, o \in {"none", "element", "tensor", "discr", "ndarray"}, od \in OutDts,
+       r \in {"ee", "ea", "ae"}, d \in DtKws }
   \cup
   { [C0(k, "at", u, <<s>>) EXCEPT !.idx = <<0, -1, 0>>] : k \in Kinds, u \in {"u1", "b1"}, s \in Shapes }
   \cup
   { [C0(k, "reduceat", "b1", <<s>>) EXCEPT !.axis = a, !.outkind = o, !.idx = i] :
        k \in Kinds, s \in Shapes, a \in UNION { SingleAxes(n) : n \in 1..3 },
-       o \in {"none", "element", "tensor", "ndarray"}, i \in { <<0, 1>>, <<1, 0>> } }
+       o \in {"none", "element", "tensor", "discr", "ndarray"}, i \in { <<0, 1>>, <<1, 0>> } }
 
 \* the combinations that are well-formed (NumPy accepts them on plain arrays)
 Legal(c) ==
   LET nd == Len(c.shapes[1]) IN
   /\ c.outkind \in OutKinds(c.kind)
+  /\ (c.outkind = "none" => c.outdt = "same")
   /\ c.order \in (IF c.method \in {"call", "outer"} THEN Orders(c.ucls) ELSE {"e"})
   /\ AxisValid(c.axis, nd)
   /\ (c.method = "reduce" => c.axis \in ReduceAxes(nd))
@@ -108,12 +136,14 @@ ExpValue(c, name) ==
                     y |-> YArr(IF Len(c.shapes) = 2 THEN c.shapes[2] ELSE c.shapes[1]),
                     axis |-> c.axis, keepdims |-> c.keepdims, idx |-> c.idx, b |-> AtScalar])
 
-\* expected result dtype of the exact ufuncs per operand dtype; the harness passes dtype=GivenDType(dt)
-\* for the configurations with dtkw = "given"
+\* expected result dtype of the exact ufuncs per operand dtype: the dtype keyword is RelDT(dtkw, operand dtype),
+\* the out object has dtype RelDT(outdt, dtype the call would produce without out); "n/a" = no such dtype
 DTypes == {"int32", "int64", "float32", "float64", "complex64", "complex128"}
-GivenDType(dt) == CASE dt = "int32" -> "int64" [] dt = "int64" -> "float64" [] dt = "float32" -> "float64"
-                    [] dt = "float64" -> "complex128" [] OTHER -> "complex128"
-ExpDType(c, name, dt) == ResDType(name, c.method, dt, IF c.dtkw = "given" THEN GivenDType(dt) ELSE "none")
+ExpDType(c, name, dt) ==
+  LET dtk == RelDT(c.dtkw, dt)
+      comp == IF dtk = "n/a" THEN "n/a" ELSE ResDType(name, c.method, dt, dtk)
+      odt == IF c.outkind = "none" \/ c.method = "at" THEN "none" ELSE IF comp = "n/a" THEN "n/a" ELSE RelDT(c.outdt, comp)
+  IN  IF "n/a" \in {dtk, comp, odt} THEN "n/a" ELSE ResDTypeOut(name, c.method, dt, dtk, odt)
 
 (* ------------------------------- invariants ---------------------------- *)
 IsShape(s) == \A i \in 1..Len(s) : s[i] >= 1
@@ -130,9 +160,14 @@ RulesTotal == ph = 1 =>
                               ELSE Len(cfg.shapes[1]) - Cardinality(AxesOf(cfg.axis, Len(cfg.shapes[1])))))
   /\ (cfg.outkind # "none" /\ ExpKind(cfg) \notin {"refused", "none"} =>
         ExpKind(cfg) = (IF cfg.outkind = "element" THEN cfg.kind ELSE cfg.outkind))
+  \* the dtype rule is total: a dtype of the ladder or "n/a"
+  /\ \A name \in ValNames(cfg), dt \in DTypes : ExpDType(cfg, name, dt) \in DTypes \cup {"bool", "n/a"}
 
 \* ... and consistent with the value semantics (one commutative-associative and one non-commutative ufunc)
-RulesConsistent == ph = 1 =>
+\* (the value semantics and the method laws do not depend on the out / dtype options: evaluated once per
+\*  shape / axis / method configuration)
+PlainOptions == cfg.outkind = "none" /\ cfg.dtkw = "none" /\ cfg.outdt = "same"
+RulesConsistent == (ph = 1 /\ PlainOptions) =>
   \A name \in (ValNames(cfg) \cap {"add", "subtract", "maximum", "negative", "less"}) :
     LET r == ExpValue(cfg, name) IN
     /\ r.sh = ExpShape(cfg)
@@ -140,7 +175,7 @@ RulesConsistent == ph = 1 =>
     /\ \A i \in 1..Len(r.v) : r.v[i][2] = QZero /\ r.v[i][1][2] = 1        \* integers stay integers
 
 \* laws of the methods among each other (sanity of the reference)
-MethodLaws == ph = 1 =>
+MethodLaws == (ph = 1 /\ PlainOptions) =>
   LET x == XArr(cfg.shapes[1])
       nd == Len(cfg.shapes[1])
   IN
